@@ -308,8 +308,12 @@ def r_file(r, prog):
         r.finding('module-not-always-visited', f.span, 'SliceFile::visit_with does not visit the module on every path where the file has one (or not between the file and its definitions)')
     # contents loop reached on every path (no early exit) and iterates arg1.contents
     it = [c for c in f.calls() if c.name() == 'into_iter' and 'arg1.contents' in vexpr(f, c.args[0])]
-    if it and must_pass(f, 0, f.return_blocks(), [head]):
-        r.ok('the definitions are iterated on every path (no early exit)')
+    nx = [c for c in f.calls() if c.name() == 'next' and c.bb in body and not f.blocks[c.bb].get('cleanup')]
+    if it and must_pass(f, 0, f.return_blocks(), [head]) and (len(f.natural_loops()) != 1 or not nx or any(vexpr(f, c.args[0]) != 'into_iter(arg1.contents)' for c in nx)):
+        r.finding('definitions-reordered', f.span, 'SliceFile::visit_with walks %s in %d loop(s): the definitions must be presented by one walk over self.contents as it is (source order)' % (
+            sorted({vexpr(f, c.args[0])[:80] for c in nx}), len(f.natural_loops())))
+    elif it and must_pass(f, 0, f.return_blocks(), [head]):
+        r.ok('the definitions are iterated on every path (no early exit), by one walk over self.contents as it is')
     else:
         r.finding('definitions-skipped', f.span, 'SliceFile::visit_with can return without iterating its definitions, or does not iterate self.contents')
     # every Definition variant dispatches to the visit_with of its own type
